@@ -387,13 +387,18 @@ theorem undo_do_delete_container_core {h : Hist} (fr : Fresh h) {p u : Ticket} {
   rw [hur] at hcr
   have hwu : written cv u = true := by simp [written, hcid]
   have hpu : p ≠ u := by intro hx; have := cs.hpW; rw [hx, hwu] at this; cases this
-  obtain ⟨_, hkey, hparu⟩ := w.objMem _ _ _ _ _ _ hd hb hm
+  have hpr : pe.removed = false := by
+    have hk0 : kill h.doc (some u) p = some pe := by
+      have : ¬ u = p := fun hx => hpu hx.symm
+      simp [kill, this, hd]
+    exact (orphaned_root_removed (n := 63) cs.horph hk0).1
+  obtain ⟨_, hkey, hparu⟩ := w.objMem _ _ _ _ _ _ hd hpr hb hm
   rw [hmc] at hkey hparu
   have hupar : ue.parent = some p := (w.par _ _ hue).trans hparu
   -- the forward removal
   have hcont : isContainer h.doc p = true := by simp [isContainer, hd, hb]
   have hkeyOf : keyOf keys member u = some k := by
-    have := keyOf_home w hd hb (u := u) (mm := m) (by rw [hkey]; exact hm) hmc
+    have := keyOf_home w hd hpr hb (u := u) (mm := m) (by rw [hkey]; exact hm) hmc
     rw [hkey] at this; exact this
   have hchild : isChildOf h.doc u p = true := by simp [isChildOf, hue, hupar]
   have hk1 : markRemoved h.doc u h.next = kill h.doc (some u) :=
@@ -507,7 +512,7 @@ theorem wf_dN : WF HN dN := by
       simp [eRoot, eO, eX, eY, eE] at hb
     · rw [← hb.1]; simp
     · rw [← hb.1]; simp
-  · intro p pe keys m k mm h hb hm
+  · intro p pe keys m k mm h _ hb hm
     rcases dN_cases h with ⟨rfl, rfl⟩ | ⟨rfl, rfl⟩ | ⟨rfl, rfl⟩ | ⟨rfl, rfl⟩ | ⟨rfl, rfl⟩ <;>
       simp [eRoot, eO, eX, eY, eE] at hb
     · obtain ⟨rfl, rfl⟩ := hb
@@ -520,7 +525,7 @@ theorem wf_dN : WF HN dN := by
       · by_cases hk2 : k = "y"
         · simp [hk2] at hm; subst hm; subst hk2; decide
         · simp [hk, hk2] at hm
-  · intro x xe nodes mv n c h hb hn hc
+  · intro x xe nodes mv n c h _ hb hn hc
     rcases dN_cases h with ⟨rfl, rfl⟩ | ⟨rfl, rfl⟩ | ⟨rfl, rfl⟩ | ⟨rfl, rfl⟩ | ⟨rfl, rfl⟩ <;>
       simp [eRoot, eO, eX, eY, eE] at hb
     obtain ⟨rfl, rfl⟩ := hb
